@@ -46,25 +46,43 @@ P = {
          'Frame obligations at every in-place mutation site of the 15 transform modules (129 sites): a flow-sensitive origin analysis over the real AST proves the receiver is a container created in the same activation and not yet yielded (fresh / source / argument / yielded lattice, branches merged conservatively, loops to fixpoint); the stateless-body proofs of C12/C13 add symbolic frame obligations on Source/Yielded objects.'
          ' Bounded stand-in for the rest: ' 'Deep snapshots of sources (lists of mutable lists, ragged) before/after full and partial iteration of the operator catalogue; every yielded row compared with its copy at the end.',
          TB + ' Origin analysis is intra-procedural and syntactic about what creates a fresh container; callbacks assumed non-mutating.', TECH_D),
- 'C05': B('sort/mergesort vs sorted(enumerate(rows)) under the C04 reference ordering for all small tables x key forms x reverse x buffersize 1..n+1,None x cache x passes; mergesort == sort(cat).'),
+ 'C05': (True, 'proof',
+         "SortView._iternocache (real AST) for ALL table and buffer sizes: the in-memory path is taken only when the whole source was read and yields each sorted row once; by an inductive invariant on `while rows` the chunking conserves rows (dumped + buffered = read; every chunk non-empty and <= buffersize; at the end every data row dumped exactly once, incl. buffersize == nrows and nrows+-1); every chunk is sorted with the one key function and the caller's reverse flag; buffersize=None means config.sort_buffersize; the cache is never published while chunks are being written."
+         ' Bounded stand-in for the rest: ' 'sort/mergesort vs sorted(enumerate(rows)) under the C04 reference ordering for all small tables x key forms x reverse x buffersize 1..n+1,None x cache x passes; mergesort == sort(cat).',
+         TB + ' T1 (list.sort stable permutation), T5 (heapq.merge / shortlist merge) and T7 (pickle) trusted: the k-way merge and stability across chunks are decided by the bounded check only.', TECH_D),
  'C06': B('All pairs of small tables (None/mixed/compound keys, ragged, header-only, prefixes, missing) for the seven join operators vs a nested-loop relational reference: header, multiset, key order.'),
  'C07': B('Hash joins vs the relational reference and vs their sort-merge twins, cache on/off, two passes, streamed-side order; lookup family vs a reference dict incl. strict.'),
  'C08': B('complement/intersection/diff/record*/hash* vs collections.Counter arithmetic for all pairs of small rectangular tables; partition law.'),
  'C09': B('Grouping/aggregation operators vs a dictionary-based reference grouping (ascending key order, input order inside groups, conservation of counts and sums) x spec forms x buffersize/presorted.'),
- 'C10': B('duplicates/unique/distinct/conflicts/isunique vs key-multiplicity reference for all small rectangular tables x key forms incl. header-only, zero-field.'),
- 'C11': B('Every sort-backed operator x buffersize x cache x tempdir x config.sort_buffersize x presorted vs the default call; cache clause over (edit, iterate) histories with pull counting.'),
+ 'C10': (True, 'proof',
+         'iterduplicates and iterunique (carried-state loops) are proved with the hybrid rule: an inductive invariant pins previous / previous_yielded / prev_comp_ne as functions of the position and the rows emitted per iteration are proved to be exactly: duplicates emits row k (and once its predecessor) iff their keys are ==, unique emits a row iff its key differs from both neighbours; with keys contiguous (sorted) this is the partition by key multiplicity, in order.'
+         ' Bounded stand-in for the rest: ' 'duplicates/unique/distinct/conflicts/isunique vs key-multiplicity reference for all small rectangular tables x key forms incl. header-only, zero-field.',
+         TB + ' single key field, rectangular table; distinct / conflicts / compound keys are bounded only.', TECH_D),
+ 'C11': (True, 'exploration',
+         'Every sort-backed operator x buffersize x cache x tempdir x config.sort_buffersize x presorted vs the default call; cache clause over (edit, iterate) histories with pull counting.'
+         ' Proved sub-claim (not what decides the property): ' 'the strategy arguments of sort are proved irrelevant for WHICH rows reach the merge (C05.iternocache: chunking conserves rows for every buffersize; buffersize=None = config default; cache published only after a complete pass; cache=False caches nothing); constructors of all sort-backed operators read nothing (C02).',
+         BNOTE + '', TECH_D),
  'C12': (True, 'proof',
          'asindices is proved with an inductive loop invariant for any number of selectors (indices in range) and exactly for 1-2 selectors; itercut, iterstack, iteraddfield, iteraddrownumbers, setheader/extendheader/pushheader are proved cell-exact per data row by the stateless-body rule for all tables, row lengths, indices and flags (one output row per input row, only the requested cells change, padding/trimming as documented, no IndexError); iterfieldconvert.transform_row proved per cell.'
          ' Bounded stand-in for the rest: ' 'Every field/row transform of the statement vs a cell-by-cell reference over positional tables with ragged rows, duplicate names, all selections and insertion indices.',
          TB + ' asindices contract used modularly; stateless-body composition is the engine meta-theorem.', TECH_D),
  'C14': B('Reshape round trips (melt/recast, transpose, flatten/unflatten, dicts/columns) and cell-exact expansion operators over all small rectangular tables, key/variable splits, periods.'),
- 'C15': B('to*/append*/from* round trips over a hostile cell alphabet x encodings x csv dialect arguments x source kinds x header flags; bytes of to+append == to(cat).'),
- 'C16': B('Pass-through views yield exactly the wrapped rows; tee targets byte-identical to to*; cache() under all pass schedules and interleavings.'),
+ 'C15': (True, 'proof',
+         "csv and pickle glue as typestate proofs over the effect trace on every path (every I/O call may raise): _writecsv and CSVView open in the right mode, wrap with the SAME encoding/errors and newline='', hand the caller's csv arguments over unchanged, write/yield each row exactly once in order, write the header iff asked, flush before detach, detach and close on every exit; _writepickle dumps each row independently with the caller's protocol."
+         ' Bounded stand-in for the rest: ' 'to*/append*/from* round trips over a hostile cell alphabet x encodings x csv dialect arguments x source kinds x header flags; bytes of to+append == to(cat).',
+         TB + ' T7: the standard library (csv, codecs, TextIOWrapper, pickle, gzip, bz2) is lossless for matching arguments; json and the byte-level round trips are bounded only.', TECH_D),
+ 'C16': (True, 'proof',
+         'TeeCSVView and TeePickleView are proved transparent (each row yielded once, unchanged, in order) and to issue exactly the event trace of _writecsv / _writepickle (same prologue, one write per row, header iff write_header, flush, detach/close on every exit).'
+         ' Bounded stand-in for the rest: ' 'Pass-through views yield exactly the wrapped rows; tee targets byte-identical to to*; cache() under all pass schedules and interleavings.',
+         TB + ' T7; teetext/teehtml/progress/clock/cache are bounded only.', TECH_D),
  'C17': (True, 'proof',
          'Typestate proof over the effect trace: todb/appenddb/_todb/_todb_dbapi_{connection,cursor,mkcurs} are executed from the real AST on EVERY path with every external call (connect, cursor, execute, executemany, close, commit) and every source next() allowed to raise; on each path: no commit when an exception escapes, at most one commit and only after executemany completed, commit=False never commits, DELETE+INSERT+commit on one connection, petl-opened connections opened transactional and closed last, caller handles never closed, header consumed before any statement.'
          ' Bounded stand-in for the rest: ' 'sqlite3: prior contents x source failure at every row index x handle kind x commit flag for todb/appenddb, observed through a fresh connection; fromdb(todb(t)) == t.',
          TB + ' T8 (DB-API transaction visibility) assumed; _quote/_placeholders assumed (bounded-checked); create=False.', TECH_D),
- 'C18': B('Private tempdir: every abandonment point / release order / source failure / pass count for buffered sorts and the fromdicts spill file; directory empty afterwards, surviving iterators complete.'),
+ 'C18': (True, 'exploration',
+         'Private tempdir: every abandonment point / release order / source failure / pass count for buffered sorts and the fromdicts spill file; directory empty afterwards, surviving iterators complete.'
+         ' Proved sub-claim (not what decides the property): ' 'ownership obligation (C05.iternocache): every chunk file is created with delete=False in the requested tempdir and wrapped by the delete-on-GC wrapper before any row is dumped; the cache is not published while chunks are being written; sort-cache generators own what they were handed (C01.frame).',
+         BNOTE + ' The deciding fact - when CPython finalises an unreachable wrapper - is T9, not a function contract.', TECH_D),
  'C19': (True, 'proof',
          'transform_value and transform_row of the real iterfieldconvert and the row loop of iterrowmap are proved against the three-way policy for ALL values, converters (uninterpreted callbacks that may raise an exception of any class) and positions: errorvalue / exception object / re-raise at the failing cell or row, non-failing cells identical, lazily failing mapper results included.'
          ' Bounded stand-in for the rest: ' 'Every subset of failing positions x three policies x argument vs config default x errorvalue for convert/fieldmap/rowmap/rowmapmany vs the policy reference, stepped with next().',
